@@ -22,7 +22,9 @@ def is_signed(event, config):
     """
     Ensure the event is correctly formatted and signed
     """
-    if not event.verify():
+    if not event.verify() or event.id != event.compute_id(
+        event.pubkey, event.created_at, event.kind, event.tags, event.content
+    ):
         raise StorageError("invalid: Bad signature")
 
 
